@@ -20,21 +20,22 @@ const (
 
 // Step kinds.
 const (
-	stBurst    = "burst"          // leader writes
-	stRestart  = "restart"        // follower process restart (clean stop, start on the same directory)
-	stCut      = "cut"            // proxy closes the replication connection(s)
-	stStall    = "stall"          // proxy holds all bytes for Ms milliseconds (asynchronously; later steps run meanwhile)
-	stDown     = "down"           // proxy cuts and refuses connections for Ms milliseconds
-	stShrink   = "shrink"         // AOFSHRINK on the leader
-	stRefollow = "refollow"       // follower: FOLLOW no one, then FOLLOW again
-	stDetachWr = "detachwr"       // follower: FOLLOW no one, writes of its own (Cmds), FOLLOW again
-	stSplit    = "split"          // follower: FOLLOW no one + own writes (Cmds); leader meanwhile writes LCmds of exactly the same encoded sizes; FOLLOW again
-	stCutMD5   = "cutmd5"         // cut now, and close the follower's next checksum exchange (AOFMD5) in mid-air
-	stPubStorm = "pubstorm"       // burst of leader writes (Cmds) while a second leader connection sends Ms PUBLISH commands concurrently
-	stRefCheck = "refollow+check" // oracle evaluation whose forced reconnect is FOLLOW no one + FOLLOW (marker first, then the re-FOLLOW)
-	stSleep    = "sleep"          // do nothing for Ms milliseconds (probes only)
-	stAwait    = "await"          // wait until the follower's pending (re)connect has sent its AOF request
-	stSlow     = "slow"           // from now on replication streams are delayed by Ms and paced (Chunk bytes per GapMs); Ms=0 lifts it
+	stBurst         = "burst"             // leader writes
+	stRestart       = "restart"           // follower process restart (clean stop, start on the same directory)
+	stCut           = "cut"               // proxy closes the replication connection(s)
+	stStall         = "stall"             // proxy holds all bytes for Ms milliseconds (asynchronously; later steps run meanwhile)
+	stDown          = "down"              // proxy cuts and refuses connections for Ms milliseconds
+	stShrink        = "shrink"            // AOFSHRINK on the leader
+	stRefollow      = "refollow"          // follower: FOLLOW no one, then FOLLOW again
+	stDetachWr      = "detachwr"          // follower: FOLLOW no one, writes of its own (Cmds), FOLLOW again
+	stSplit         = "split"             // follower: FOLLOW no one + own writes (Cmds); leader meanwhile writes LCmds of exactly the same encoded sizes; FOLLOW again
+	stShrinkBacklog = "shrink-in-backlog" // leader writes Cmds (a large backlog); the follower loses its disk and re-attaches from position 0 over a link that delivers nothing for Ms; once its AOF request is through, AOFSHRINK runs to completion on the leader; then the leader writes LCmds
+	stCutMD5        = "cutmd5"            // cut now, and close the follower's next checksum exchange (AOFMD5) in mid-air
+	stPubStorm      = "pubstorm"          // burst of leader writes (Cmds) while a second leader connection sends Ms PUBLISH commands concurrently
+	stRefCheck      = "refollow+check"    // oracle evaluation whose forced reconnect is FOLLOW no one + FOLLOW (marker first, then the re-FOLLOW)
+	stSleep         = "sleep"             // do nothing for Ms milliseconds (probes only)
+	stAwait         = "await"             // wait until the follower's pending (re)connect has sent its AOF request
+	stSlow          = "slow"              // from now on replication streams are delayed by Ms and paced (Chunk bytes per GapMs); Ms=0 lifts it
 )
 
 type step struct {
@@ -576,7 +577,7 @@ func drawCase(t *rapid.T, o genOpts) caseSpec {
 	cs.SyncBeforeFollow = o.noStaleSession
 	cs.AvoidBoundary = o.noBoundaryAt512K
 
-	kinds := []string{stBurst, stBurst, stBurst, stBurst, stRestart, stCut, stStall, stDown, stShrink, stRefollow, stDetachWr, stSplit, stSlow, stCutMD5}
+	kinds := []string{stBurst, stBurst, stBurst, stBurst, stRestart, stCut, stStall, stDown, stShrink, stRefollow, stDetachWr, stSplit, stSlow, stCutMD5, stShrinkBacklog}
 	if o.noResyncFromZero {
 		kinds = []string{stBurst, stBurst, stBurst, stBurst, stRestart, stCut, stStall, stDown, stRefollow, stDetachWr, stSplit, stSlow}
 	}
@@ -607,6 +608,15 @@ func drawCase(t *rapid.T, o genOpts) caseSpec {
 				st.Cmds = append(st.Cmds, []string{"SET", "u1", "s" + strconv.Itoa(j), "POINT", c2("slat"), c2("slon")})
 				st.LCmds = append(st.LCmds, []string{"SET", "k1", "t" + strconv.Itoa(j), "POINT", c2("tlat"), c2("tlon")})
 			}
+		case stShrinkBacklog:
+			// the backlog must exceed what the sockets between leader and proxy can
+			// park (a few MB), otherwise the leader's copy is over before the swap
+			st.Ms = rapid.IntRange(800, 2000).Draw(t, "holdms")
+			for j, n := 0, rapid.IntRange(75, 110).Draw(t, "nbacklog"); j < n; j++ {
+				st.Cmds = append(st.Cmds, []string{"SET", "pad", "b" + strconv.Itoa(j%4), "STRING",
+					fmt.Sprintf("%s%d:%d", padPrefix, 88000+rapid.IntRange(0, 999).Draw(t, "bjit"), j+1)})
+			}
+			st.LCmds = burst(t, ns, f, 1, 4, 0)
 		case stPubStorm:
 			st.Cmds = burst(t, ns, f, 1, 10, rapid.IntRange(60000, 400000).Draw(t, "stormpad"))
 			st.Ms = rapid.IntRange(50, 400).Draw(t, "npublish")
